@@ -144,6 +144,8 @@ def proxy_matrix():
                 ({}, base + request(b"/1", [("Connection", "keep-alive")], version=b"1.0") + request(b"/2", [("Connection", "Keep-Alive")], version=b"1.0") + request(b"/3", [])),
                 ({}, base + request(b"/1", [("Connection", "close")]) + request(b"/2", [])),
                 ({}, base + request(b"/1", [("Content-Length", "3")], method=b"POST") + b"abc" + request(b"/2", [])),
+                ({}, base + request(b"/1", [("Transfer-Encoding", "identity")]) + request(b"/2", [])),
+                ({}, base + request(b"/1", [("Transfer-Encoding", "gzip")]) + request(b"/2", [])),
                 ({"forwarded_allow_ips": "*"}, base + request(b"/1", []) + request(b"/2", [("X-Forwarded-Proto", "https")]) + request(b"/3", [])),
             ]
             for over, data in variants:
